@@ -2,6 +2,7 @@ package main
 
 import (
 	"bytes"
+	"encoding/base64"
 	"encoding/json"
 	"encoding/xml"
 	"fmt"
@@ -147,8 +148,18 @@ type tokCase struct {
 	Cls string `json:"cls"`
 }
 type tokLine struct {
-	F  string    `json:"f"`
-	Cs []tokCase `json:"cs"`
+	F   string    `json:"f"`
+	Cs  []tokCase `json:"cs"`
+	Raw []rawIn   `json:"raw,omitempty"` // replay form of a derived byte-level input
+}
+type rawIn struct {
+	B64   string `json:"b64"`
+	AllOn bool   `json:"allon"`
+	Text  string `json:"text"` // for the reader only
+}
+
+func rawCase(b []byte, allOn bool) tokLine {
+	return tokLine{F: "tok", Raw: []rawIn{{B64: base64.StdEncoding.EncodeToString(b), AllOn: allOn, Text: string(b)}}}
 }
 
 func renderToks(ts []tokT) []byte {
@@ -305,6 +316,16 @@ func replayTok(line []byte, a *Acc) {
 		panic(err)
 	}
 	cases, nontriv := 0, 0
+	for _, r := range l.Raw {
+		b, _ := base64.StdEncoding.DecodeString(r.B64)
+		if r.AllOn {
+			decOpt{lower: true, snake: true, asmap: true, keep: true, escdec: true, tagseq: true, apfx: "@", kpfx: "_"}.apply()
+			mxj.CastValuesToInt(true)
+		}
+		cases += checkXmlInput(b, oracleClass(b), "replayed byte input", a, rawCase(b, r.AllOn))
+		resetDecOpts()
+		mxj.CastValuesToInt(false)
+	}
 	for _, c := range l.Cs {
 		doc := renderToks(c.Ts)
 		if oc := oracleClass(doc); oc != c.Cls {
@@ -315,6 +336,15 @@ func replayTok(line []byte, a *Acc) {
 		}
 		k := checkXmlInput(doc, c.Cls, "token "+c.Op, a, tokLine{F: "tok", Cs: []tokCase{c}})
 		cases += k
+		// the same input under non-default decoder options, and with a BOM / stray text ahead of the root
+		decOpt{lower: true, snake: true, asmap: true, keep: true, escdec: true, tagseq: true, apfx: "@", kpfx: "_"}.apply()
+		mxj.CastValuesToInt(true)
+		for _, pre := range []string{"", "\xef\xbb\xbf", "x \n"} {
+			pdoc := append([]byte(pre), doc...)
+			cases += checkXmlInput(pdoc, oracleClass(pdoc), "token "+c.Op+" with options and prefix", a, rawCase(pdoc, true))
+		}
+		resetDecOpts()
+		mxj.CastValuesToInt(false)
 		if c.Op != "none" {
 			nontriv += k
 			continue
@@ -330,7 +360,7 @@ func replayTok(line []byte, a *Acc) {
 				}
 			}
 			for _, mdoc := range muts {
-				k := checkXmlInput(mdoc, oracleClass(mdoc), fmt.Sprintf("byte mutation at %d of %q", i, doc), a, map[string]interface{}{"bytes": string(mdoc)})
+				k := checkXmlInput(mdoc, oracleClass(mdoc), fmt.Sprintf("byte mutation at %d of %q", i, doc), a, rawCase(mdoc, false))
 				cases += k
 				nontriv += k
 			}
@@ -416,7 +446,7 @@ func jsonGobTotality(a *Acc) {
 var jsonGobDone bool
 
 func init() {
-	register("tok", &family{replay: func(line []byte, a *Acc) {
+	register("tok", &family{serial: true, replay: func(line []byte, a *Acc) {
 		if !jsonGobDone {
 			jsonGobDone = true
 			jsonGobTotality(a)
